@@ -151,3 +151,15 @@ Ltac ifs := repeat match goal with |- context [if ?b then _ else _] => destruct 
 (* debugging: print the current goal with its hypotheses *)
 Ltac show := idtac "=========="; try match goal with H : ?T |- _ => idtac H ":" T; fail end;
   match goal with |- ?g => idtac "|-" g end.
+
+(* as step_inv, but the owner's event dispatch (dispatch_o) is left folded *)
+Ltac unfold_step0 H :=
+  unfold step in H;
+  repeat (break_hyp H; try discriminate H);
+  try (unfold step_in in H; repeat (break_hyp H; try discriminate H));
+  try (unfold step_out, st_lock, st_submit, st_evo, st_evw, st_work, st_ret, st_compl in H;
+       repeat (break_hyp H; try discriminate H)).
+
+Ltac step_inv0 H :=
+  unfold_step0 H;
+  match type of H with Some _ = Some _ => inversion H; clear H | _ => idtac end; subst.
